@@ -206,8 +206,8 @@ impl Monitor for C01 {
         self.directed(t)
             + match t {
                 Tier::Tiny => 40,
-                Tier::Quick => 24_000,
-                Tier::Thorough => 400_000,
+                Tier::Quick => 720000,
+                Tier::Thorough => 7200000,
             }
     }
     fn rule(&self) -> &'static str {
